@@ -68,12 +68,12 @@ Section Driver.
   Lemma iterate_spec fuel : forall n prev_score prevs mn mx best roots brk tbrk ev best' ev',
     iterate fuel (Z.of_nat n) prev_score prevs mn mx best roots brk tbrk ev = Some (best', ev') ->
     info_depths ev = zseq n ->
-    Forall (fun d => d <= Z.max search_depth 1) (call_depths ev) ->
+    Forall (fun d => 1 <= d <= Z.max search_depth 1) (call_depths ev) ->
     (Z.of_nat n < Z.max search_depth 1) ->
     Forall (fun r => P (r_pv0 r)) roots ->
     P best ->
     (exists k, info_depths ev' = zseq k /\ (n <= k)%nat /\ Z.of_nat k <= Z.max search_depth 1) /\
-    Forall (fun d => d <= Z.max search_depth 1) (call_depths ev') /\
+    Forall (fun d => 1 <= d <= Z.max search_depth 1) (call_depths ev') /\
     P best'.
   Proof.
     induction fuel as [|f IH]; intros n prev_score prevs mn mx best roots brk tbrk ev best' ev' H Hinfo Hcalls Hn Hroots Hbest;
@@ -87,14 +87,14 @@ Section Driver.
     { rewrite U3. rewrite Forall_forall in Hroots. apply Hroots. rewrite U1. apply in_or_app. left. exact U2. }
     assert (Hroots' : Forall (fun r => P (r_pv0 r)) (ao_roots o)).
     { rewrite U1 in Hroots. apply Forall_app in Hroots. tauto. }
-    assert (Hcalls' : Forall (fun d => d <= Z.max search_depth 1) (call_depths (ao_ev o))).
+    assert (Hcalls' : Forall (fun d => 1 <= d <= Z.max search_depth 1) (call_depths (ao_ev o))).
     { rewrite E1, call_depths_app. apply Forall_app. split; [exact Hcalls|].
       eapply Forall_impl; [|exact E3]. cbn. intros a ->. lia. }
     assert (Hinfo0 : info_depths (ao_ev o) = zseq n).
     { rewrite E1, info_depths_app, E2, app_nil_r. exact Hinfo. }
     assert (Hinfo1 : info_depths (ao_ev o ++ [EInfo cur (ao_val o) (ao_pv0 o)]) = zseq (S n)).
     { rewrite info_depths_app, Hinfo0, zseq_S. cbn. rewrite Ecur. reflexivity. }
-    assert (Hcalls1 : Forall (fun d => d <= Z.max search_depth 1) (call_depths (ao_ev o ++ [EInfo cur (ao_val o) (ao_pv0 o)]))).
+    assert (Hcalls1 : Forall (fun d => 1 <= d <= Z.max search_depth 1) (call_depths (ao_ev o ++ [EInfo cur (ao_val o) (ao_pv0 o)]))).
     { rewrite call_depths_app. cbn. rewrite app_nil_r. exact Hcalls'. }
     destruct (ao_stop o) eqn:Estop.
     { injection H as <- <-. repeat split; [|exact Hcalls'|exact Hbest].
@@ -128,7 +128,7 @@ Section Go.
     go search_depth asp_fuel fuel root_moves stop0 roots brk tbrk = Some (best, ev) ->
     Forall (fun r => P (r_pv0 r)) roots -> P None ->
     (exists k, info_depths ev = zseq k /\ Z.of_nat k <= Z.max search_depth 1) /\
-    Forall (fun d => d <= Z.max search_depth 1) (call_depths ev) /\
+    Forall (fun d => 1 <= d <= Z.max search_depth 1) (call_depths ev) /\
     (exists b0, P b0 /\ best = match b0 with Some m => Some m | None => hd_error root_moves end).
   Proof.
     unfold go. intros H Hroots HP. destruct stop0.
@@ -147,7 +147,7 @@ Section Go.
   Theorem go_depth_sequence best ev :
     go search_depth asp_fuel fuel root_moves stop0 roots brk tbrk = Some (best, ev) ->
     exists k, info_depths ev = zseq k /\ Z.of_nat k <= Z.max search_depth 1 /\
-              Forall (fun d => d <= Z.max search_depth 1) (call_depths ev).
+              Forall (fun d => 1 <= d <= Z.max search_depth 1) (call_depths ev).
   Proof.
     intro H. destruct (go_spec (fun _ => True) best ev H) as [[k [K1 K2]] [K3 _]]; [|exact I|].
     - clear. induction roots as [|r l IH]; constructor; [exact I|exact IH].
